@@ -909,3 +909,25 @@ def _reversed(eng, st, args, kwargs):
     if isinstance(x.kind, KTuple):
         return TupV(list(reversed(tuple_items(x))))
     raise Unsupported(f'reversed of {x.kind!r}')
+
+
+class ZipV:
+    """zip(a, b, ...) as an iterable value: length is the minimum, element i is the tuple of the i-th elements."""
+    tag = 'zip'
+
+    def __init__(self, parts):
+        self.parts = parts
+
+    def iter_sequence(self, eng, st):
+        seqs = [eng.iter_sequence(p, st) for p in self.parts]
+        n = seqs[0][0]
+        for m, _ in seqs[1:]:
+            n = z3.If(m < n, m, n)
+        return z3.simplify(n), (lambda i: TupV([at(i) for _, at in seqs]))
+
+
+@builtin('zip')
+def _zip(eng, st, args, kwargs):
+    if not args:
+        raise Unsupported('zip()')
+    return V(KFn, z3.IntVal(0), meta=ZipV(list(args)))
